@@ -280,6 +280,9 @@ macro_rules! impl_bop {
                 let k = match (cond[0].b() > cond[1].b(), cond[0].d() > cond[1].d()) {
                     // Case I
                     (true, true) | (false, false) => 0.0,
+                    // the conditionals tie in the component bounding k: k = 0 (the quotients below would be 0/0)
+                    (true, false) if cond[0].d() == cond[1].d() => 0.0,
+                    (false, true) if cond[0].b() == cond[1].b() => 0.0,
                     (bp, _) => {
                         let pyx = cond[0].b() * self.base_rate
                             + cond[1].b() * rvax
